@@ -73,7 +73,7 @@ EXPORT errno_t _memzero32_s_chk(uint32_t *dest, rsize_t len,
 #endif
 {
 
-    rsize_t dmax = len * 4;
+    rsize_t dmax = SAFEC_MUL_SAT(len, 4);
     CHK_DEST_MEM_NULL("memzero32_s")
     CHK_DMAX_MEM_ZERO("memzero32_s")
     if (destbos == BOS_UNKNOWN) {
